@@ -1767,6 +1767,18 @@ fn escape_scalar_string(value: &[u8], start: usize, end: usize, json: &mut Strin
             0x0A => "\\n",
             0x0D => "\\r",
             0x09 => "\\t",
+            // other control characters must be escaped as \u00XX to produce valid JSON
+            0x00..=0x1F => {
+                if i > last_start {
+                    let val = String::from_utf8_lossy(&value[last_start..i]);
+                    json.push_str(&val);
+                }
+                json.push_str("\\u00");
+                json.push(char::from_digit((value[i] >> 4) as u32, 16).unwrap());
+                json.push(char::from_digit((value[i] & 0xF) as u32, 16).unwrap());
+                last_start = i + 1;
+                continue;
+            }
             _ => {
                 continue;
             }
